@@ -31,8 +31,9 @@ import (
 // Special case: Abs(±Inf) = +Inf
 func Abs(x *internal.Decimal) (*internal.Decimal, error) {
 	var d internal.Decimal
-	_, err := internal.BaseContext.Abs(&d, x)
-	return &d, err
+	// Abs is exact; a context would round the result to its precision.
+	d.Abs(x)
+	return &d, nil
 }
 
 // Acosh returns the inverse hyperbolic cosine of x.
